@@ -63,9 +63,8 @@ fn tn(s: &str) -> cedar_policy::EntityTypeName {
 }
 
 pub fn run(tier: Tier, replay_file: Option<&str>) -> i32 {
-    if replay_file.is_some() {
-        eprintln!("C18 replay: re-run the check (cases are identified by fingerprint + policy text in the replay file)");
-        return 2;
+    if let Some(p) = replay_file {
+        return replay_by_rerun("C18", p, || run(Tier::Quick, None));
     }
     let ctx = Ctx::new("C18", tier);
     quiet_panics();
